@@ -9,6 +9,8 @@ from __future__ import annotations
 from collections.abc import Sequence
 from typing import TYPE_CHECKING, Iterator, Literal, Mapping, overload
 
+import numbers
+
 import numpy as np
 
 from optyx.core.expressions import (
@@ -498,6 +500,9 @@ class ElementwisePower(Expression):
     """
 
     __slots__ = ("vector", "power")
+
+    # array - x**2 must reach __rsub__ as a whole, not be broadcast by NumPy
+    __array_ufunc__ = None
 
     def __init__(self, vector: VectorVariable, power: float | int) -> None:
         self.vector = vector
@@ -1557,6 +1562,7 @@ def _vector_constraint(
         left_exprs = list(left._expressions)
 
     # Handle right operand
+    right = _as_python_scalar(right)
     if isinstance(right, (int, float)):
         # Scalar broadcast - create constraints directly
         return [_make_constraint(expr, sense, right) for expr in left_exprs]
@@ -1610,6 +1616,18 @@ def _vector_constraint(
     ]
 
 
+def _as_python_scalar(value):
+    """0-d arrays, NumPy scalars and other real numbers (np.longdouble, Fraction)
+    are scalars: hand them on as Python numbers; everything else unchanged."""
+    if isinstance(value, np.ndarray) and value.ndim == 0:
+        value = value[()]
+    if isinstance(value, np.generic):
+        value = value.item()
+    if isinstance(value, numbers.Real) and not isinstance(value, (int, float)):
+        value = float(value)
+    return value
+
+
 def _vector_binary_op(
     left: VectorVariable | VectorExpression,
     right: VectorVariable | VectorExpression | float | int,
@@ -1640,8 +1658,7 @@ def _vector_binary_op(
         left_exprs = list(left._expressions)
 
     # Handle right operand
-    if isinstance(right, np.generic):
-        right = right.item()  # NumPy scalar (np.int64(2) - x)
+    right = _as_python_scalar(right)
     if isinstance(right, (int, float)):
         # Scalar broadcast
         right_exprs = [Constant(right)] * len(left_exprs)
